@@ -84,10 +84,19 @@ def execute(plan):
           raise RuntimeError('consumer callback failed')
       return f
 
-    ss = ServerSet(zk, PATH, cb('join'), cb('leave'), lambda n: n.startswith('member_'))
+    class ObservedServerSet(ServerSet):
+      """Records which incarnations of the watched path the data watch reported (classification of a known finding only)."""
+      def _data_changed(self, data, stat):
+        self.__dict__.setdefault('vf_reported', []).append(None if stat is None else stat.czxid)
+        return ServerSet._data_changed(self, data, stat)
+
+    ss = ObservedServerSet(zk, PATH, cb('join'), cb('leave'), lambda n: n.startswith('member_'))
     lb = None
+    zkp = None
     if plan['with_balancer']:
-      prov = HeapBalancerSink.Builder(server_set_provider=ZooKeeperServerSetProvider(zk, PATH))
+      zkp = ZooKeeperServerSetProvider(zk, PATH)
+      zkp.ServerSet = ObservedServerSet
+      prov = HeapBalancerSink.Builder(server_set_provider=zkp)
 
       class _R(object):
         cfg = {}
@@ -96,6 +105,13 @@ def execute(plan):
       prov.next_provider = ChannelProvider(_R())
       lb = prov.CreateSink({SinkProperties.Label: 'svc'})
       lb.Open()
+
+    def unobserved_incarnations(sset):
+      """Deleted incarnations of the watched path that had member children and that this server set's data watch
+      never reported (the kazoo DataWatch coalesces create+delete into 'no change')."""
+      seen = set(x for x in sset.__dict__.get('vf_reported', []) if x is not None)
+      return [i for i in zk.incarnations.get(PATH, [])
+              if i['deleted'] is not None and i['czxid'] not in seen and [c for c in i['children'] if c.startswith('member_')]]
 
     def tree_members():
       ch = zk.children(PATH)
@@ -118,12 +134,17 @@ def execute(plan):
       if held != want:
         missing, extra = sorted(want - held), sorted(held - want)
         key = 'stale-member' if extra and not missing else ('missing-member' if missing and not extra else 'membership-mismatch')
+        unobs = unobserved_incarnations(ss)
+        if extra and not missing and unobs and all(any(n in i['children'] for i in unobs) for n in extra):
+          key = 'unobserved-path-incarnation'
         raise Violation(ID, key, 'consumer holds %r, tree has %r %s; last events %r; callback errors %r' % (
             sorted(held), sorted(want), where, log[-10:], zk.callback_errors[-3:]))
       if lb is not None and lb._LoadBalancerSink__init_done.is_set():
         got = set((ep.host, ep.port) for ep in lb._servers)
         wantep = set(('h%d' % int(n.split('_')[1]), 1000 + int(n.split('_')[1])) for n in want)
         if got != wantep:
+          if zkp is not None and zkp._server_set is not None and wantep < got and unobserved_incarnations(zkp._server_set):
+            raise Violation(ID, 'unobserved-path-incarnation', 'balancer keeps %r, tree has %r %s' % (sorted(got - wantep), sorted(wantep), where))
           raise Violation(ID, 'balancer-mismatch', 'balancer knows %r, tree has %r %s' % (sorted(got), sorted(wantep), where))
 
     parent_deleted_with_members = False
